@@ -157,10 +157,37 @@ pub fn genes_of(code: &[usize]) -> Vec<PushGene> {
 }
 
 fn label(code: &[usize]) -> String {
-    code.iter()
-        .map(|s| ["}", "I0", "DupBlock{", "When{", "Unless{", "IfElse{{"][*s])
-        .collect::<Vec<_>>()
-        .join(" ")
+    // run-length encoded beyond 24 genes (deep-nesting family)
+    let names = ["}", "I0", "DupBlock{", "When{", "Unless{", "IfElse{{"];
+    if code.len() <= 24 {
+        return code.iter().map(|s| names[*s]).collect::<Vec<_>>().join(" ");
+    }
+    let mut out: Vec<String> = vec![];
+    let mut i = 0;
+    while i < code.len() {
+        // longest repetition of a unit of length 1 or 2
+        let mut best = (1usize, 1usize);
+        for unit in 1..=2usize {
+            if i + unit > code.len() {
+                break;
+            }
+            let mut reps = 1;
+            while i + (reps + 1) * unit <= code.len() && code[i + reps * unit..i + (reps + 1) * unit] == code[i..i + unit] {
+                reps += 1;
+            }
+            if reps * unit > best.0 * best.1 {
+                best = (unit, reps);
+            }
+        }
+        let unit: Vec<&str> = code[i..i + best.0].iter().map(|s| names[*s]).collect();
+        if best.1 > 1 {
+            out.push(format!("({})x{}", unit.join(" "), best.1));
+        } else {
+            out.push(unit.join(" "));
+        }
+        i += best.0 * best.1;
+    }
+    out.join(" ")
 }
 
 /// check one genome; Some((key, what)) on violation
@@ -219,6 +246,115 @@ pub fn check_genome(code: &[usize]) -> (Option<(String, String)>, Option<Vec<Pus
         );
     }
     (None, Some(real))
+}
+
+/// The deep-nesting family: a prefix that opens d blocks (d from a dense range plus the
+/// neighbourhoods of powers of two), followed by every short suffix and by the "close k levels
+/// and continue" suffixes with k around d.  The property quantifies over any nesting depth; the
+/// enumeration above reaches depth N only.  Runs on threads with a large stack because the
+/// repository's parser, `==` and `Drop` recurse once per level.
+fn deep_prefixes(d: usize) -> Vec<(&'static str, Vec<usize>)> {
+    let mut v: Vec<(&'static str, Vec<usize>)> = vec![
+        ("When", std::iter::repeat(3).take(d).collect()),
+        ("DupBlock", std::iter::repeat(2).take(d).collect()),
+        ("I0-When", (0..d).flat_map(|_| [1usize, 3]).collect()),
+    ];
+    // IfElse opens two blocks but only one at a time is *open*: nesting d through first blocks
+    v.push(("IfElse", std::iter::repeat(5).take(d).collect()));
+    // nesting through the *second* blocks: IfElse Close repeated
+    v.push(("IfElse-second", (0..d).flat_map(|_| [5usize, 0]).collect()));
+    v
+}
+fn deep_suffixes(d: usize, max_len: usize) -> Vec<Vec<usize>> {
+    let mut out: Vec<Vec<usize>> = vec![vec![]];
+    let mut layer: Vec<Vec<usize>> = vec![vec![]];
+    for _ in 0..max_len {
+        let mut next = vec![];
+        for l in &layer {
+            for s in 0..NSYM {
+                let mut l2 = l.clone();
+                l2.push(s);
+                next.push(l2);
+            }
+        }
+        out.extend(next.iter().cloned());
+        layer = next;
+    }
+    for k in d.saturating_sub(2)..=d + 2 {
+        let closes: Vec<usize> = std::iter::repeat(0).take(k).collect();
+        for head in [vec![], vec![1usize]] {
+            for tail in [vec![], vec![1usize], vec![3usize, 1], vec![5usize, 1, 0, 1]] {
+                let mut s = head.clone();
+                s.extend(closes.iter());
+                s.extend(tail.iter());
+                out.push(s);
+            }
+        }
+    }
+    out
+}
+pub fn deep_depths(quick: bool) -> Vec<usize> {
+    let mut d: Vec<usize> = (8..=300).collect();
+    d.extend(510..=514);
+    d.extend(1022..=1026);
+    if !quick {
+        d.extend(301..=509);
+        d.extend(4094..=4098);
+        d.extend(32766..=32770);
+        d.extend(65534..=65538);
+    }
+    d
+}
+fn deep_family(run: &mut Run) {
+    let quick = run.quick();
+    let depths = deep_depths(quick);
+    let results = mcx::par::par_map_big(depths.len(), 4usize << 30, |k| {
+        let d = depths[k];
+        let mut count = 0u64;
+        let mut viols: Vec<(String, String, Value)> = vec![];
+        let suffix_len = if d > 2000 { 1 } else if quick { 2 } else { 3 };
+        for (kind, prefix) in deep_prefixes(d) {
+            for suffix in deep_suffixes(d, suffix_len) {
+                let mut code = prefix.clone();
+                code.extend(suffix.iter());
+                count += 1;
+                let (v, real) = check_genome(&code);
+                if let Some((key, what)) = v {
+                    if viols.len() < 3 {
+                        let what: String = what.chars().take(400).collect();
+                        let kind_of_problem = key.split('/').nth(1).unwrap_or("tree").to_string();
+                        viols.push((format!("parse/{kind_of_problem}/deep/{kind}/d={d}"), format!("nesting depth {d}: {what}"), json!({"check":"C05","code": code})));
+                    }
+                }
+                // dismantle deep trees without recursion
+                if let Some(real) = real {
+                    drop_iteratively(real);
+                }
+            }
+        }
+        (count, viols)
+    });
+    let mut total = 0u64;
+    for (c, viols) in results {
+        total += c;
+        for (k, w, r) in viols {
+            run.violation(k, w, r);
+        }
+    }
+    run.evaluations += total;
+    run.distinct_nontrivial += total;
+    run.note("deep.genomes", json!(total));
+    run.bound("deep.depths", json!(if quick { "8..=300, 510..=514, 1022..=1026" } else { "8..=514, 1022..=1026, 4094..=4098, 32766..=32770, 65534..=65538" }));
+    run.bound("deep.prefix_kinds", json!(["When x d", "DupBlock x d", "(I0 When) x d", "IfElse x d", "(IfElse Close) x d"]));
+    run.bound("deep.suffixes", json!("every suffix of length <= 2 (thorough 3; 1 beyond depth 2000) plus close-k-levels-and-continue for k in d-2..=d+2"));
+}
+fn drop_iteratively(p: Vec<PushProgram>) {
+    let mut work = p;
+    while let Some(x) = work.pop() {
+        if let PushProgram::Block(b) = x {
+            work.extend(b);
+        }
+    }
 }
 
 pub fn run(run: &mut Run) {
@@ -305,21 +441,14 @@ pub fn run(run: &mut Run) {
             run.violation(k, w, r);
         }
     }
-    // a smoke guard for deep nesting (not a verdict about unbounded depth, see DESIGN C03)
-    let deep = 2000usize;
-    let code: Vec<usize> = std::iter::repeat(3).take(deep).collect();
-    let (v, _) = check_genome(&code);
-    if let Some((k, w)) = v {
-        run.violation(format!("deep/{}", k.split('/').nth(1).unwrap_or("")), format!("nesting depth {deep}: {}", &w[..w.len().min(200)]), json!({"check":"C05","code": code}));
-    }
+    deep_family(run);
     run.states = shapes.len() as u64;
     run.transitions = run.evaluations;
     run.traces_validated = run.evaluations;
-    run.rule = "all gene sequences of length 0..=N over {Close, literal(position), DupBlock, When, Unless, IfElse}; non-trivial = the parsed program contains at least one block; states = distinct tree shapes among genomes of length <= 8".into();
+    run.rule = "all gene sequences of length 0..=N over {Close, literal(position), DupBlock, When, Unless, IfElse}; non-trivial = the parsed program contains at least one block; states = distinct tree shapes among genomes of length <= 8; plus the deep-nesting family (prefix opening d blocks, d dense up to 300 and around powers of two, x short suffixes)".into();
     run.bound("max_genome_len", json!(n_max));
     run.bound("symbols", json!(NSYM));
     run.note("max_nesting_depth_enumerated", json!(depth));
-    run.note("deep_nesting_smoke_depth", json!(deep));
     run.assumptions = vec![
         "PlushyRef (explicit stack of open blocks) is the meaning of the property's parsing rules".into(),
         "instruction identity does not matter beyond the number of blocks it opens".into(),
